@@ -1,6 +1,7 @@
 (* C19 — Every row-filter strategy round-trips every byte pattern.
    Only statements here; proofs live in Proofs/FilterProofs.v. *)
-From OxiVerif Require Import Base.Common Spec.Filter Model.Types Model.ScanLines Model.Filters Proofs.FilterProofs.
+From OxiVerif Require Import Base.Common Spec.Filter Model.Types Model.ScanLines Model.Filters Proofs.FilterProofs Proofs.FilterImage Proofs.FilterStream.
+From OxiVerif Require Import Spec.Adam7 Spec.Sem Spec.Decode Proofs.Bridge Proofs.LiftColor.
 
 (* The specification's own filter and reconstruction are inverse, for every filter type, pixel
    size and neighbour bytes (all lines, no length bound). *)
@@ -38,3 +39,26 @@ Example C19_example :
   filter_line FPaeth 2 [10; 20; 30; 40; 250; 3] [1; 2; 3; 4; 5; 6] 0
   = Ok ([4; 9; 18; 20; 20; 220; 219], [10; 20; 30; 40; 250; 3]).
 Proof. vm_compute. reflexivity. Qed.
+
+(* IMAGE LEVEL, all ten strategies (any choice oracle for Brute), no alpha rewriting: the rows written for the scan lines of an
+   image - of any size, interlaced or not, first rows of the image and of every pass included - have filter types 0..4 and the
+   specification's reconstruction of the whole sequence (reference row = previous row of the same pass, else zeros) returns
+   exactly the scan lines that were filtered *)
+Theorem C19_image_rows_roundtrip : forall brute (img : image) f lines rows,
+  (1 <= bpp_bytes img)%nat ->
+  scan_lines img false = Ok lines ->
+  Forall (fun l => bytes_ok (l_data l) /\ (bpp_bytes img <= length (l_data l))%nat) lines ->
+  filter_image_rows brute img f false = Ok rows ->
+  Forall2 (fun r l => exists ft buf, r = ft :: buf /\ 0 <= ft <= 4 /\ length buf = length (l_data l)) rows lines /\
+  spec_recon_seq (bpp_bytes img) None (combine (map l_pass lines) rows) = Some (map l_data lines).
+Proof. exact filter_image_rows_roundtrip. Qed.
+Print Assumptions C19_image_rows_roundtrip.
+
+(* STREAM LEVEL: the whole filtered stream written for a decodable image is accepted by the specification's un-filtering of a
+   (possibly interlaced) image and gives back exactly the image data *)
+Theorem C19_stream_roundtrip : forall brute (img : image) f stream pic,
+  wf img -> sem img = Some pic ->
+  filter_image brute img f false = Ok stream ->
+  spec_unfilter (width (hdr img)) (height (hdr img)) (bpp (hdr img)) (interlaced (hdr img)) stream = Some (data img).
+Proof. exact filter_image_stream. Qed.
+Print Assumptions C19_stream_roundtrip.
